@@ -554,3 +554,86 @@ def compiled_graph(I: Interp, routines: list[list[AObj]], branch_ops: set[str], 
         else:
             n.nxt = g.mk(f"{name}[{ptxt(params)}]" if params else name, "op", nxt=nxt)
     return g, entries
+
+
+# --------------------------------------------------------------------------- generic tree -> handler construction
+
+
+class TreeCompiler:
+    """Builds the handler tree for a grammar parse tree exactly as the statement visitor does (a handler per dispatched rule,
+    children visited in order, the finished handler added to its parent) and evaluates collect() abstractly."""
+
+    def __init__(self, repo: Repo, fold: Any, dispatch: dict[str, Any]) -> None:
+        self.repo = repo
+        self.I = Interp(repo, fold)
+        self.dispatch = dispatch
+        self._ctx_cache: dict[int, ACtx] = {}
+        self._keep: list[Any] = []
+        f = repo.find_class
+        self.cc_cls = {n: f(n) for n in ("CompilerCtx", "Counter", "SourceMapBuilder")}
+
+    def new_context(self, perf: str) -> AObj:
+        I = self.I
+        I.steps = 0
+        self._ctx_cache = {}
+        self._keep = []
+        return I.new(self.cc_cls["CompilerCtx"], I.new(self.cc_cls["Counter"]), I.new(self.cc_cls["SourceMapBuilder"]), {}, I.new(self.cc_cls["Counter"]), perf, {})
+
+    def ctx_of(self, node: Any) -> ACtx:
+        if id(node) in self._ctx_cache:
+            return self._ctx_cache[id(node)]
+        tokens: dict[str, list[Tok]] = {}
+        subs: dict[str, list[ACtx]] = {}
+        c = ACtx(node.rule, tokens, subs)  # type: ignore[arg-type]
+        self._ctx_cache[id(node)] = c
+        self._keep.append(node)  # ids are only unique while the node lives
+        for ch in node.children:
+            if hasattr(ch, "rule"):
+                subs.setdefault(ch.rule, []).append(self.ctx_of(ch))
+            else:
+                tokens.setdefault(ch.type, []).append(Tok(ch.text))
+        # sub-rule accessors return the single context (or None) unless called with an index: mirror ANTLR
+        c.tokens = tokens
+        c.subs = {k: (v if len(v) > 1 else v[0]) for k, v in subs.items()}  # type: ignore[assignment]
+        return c
+
+    def build(self, node: Any, cc: AObj) -> list[AObj]:
+        d = self.dispatch.get(node.rule)
+        kids: list[AObj] = []
+        if d is not None and d.handler is not None:
+            h = self.I.new(d.handler, self.ctx_of(node), cc, **dict(d.kwargs))
+            for ch in node.children:
+                if hasattr(ch, "rule"):
+                    for k in self.build(ch, cc):
+                        m = self.repo.find_method(h.cls, "add")
+                        self.I.call_func(m, [h, k], {})  # type: ignore[arg-type]
+            return [h]
+        for ch in node.children:
+            if hasattr(ch, "rule"):
+                kids.extend(self.build(ch, cc))
+        return kids
+
+    def collect(self, h: AObj) -> Any:
+        m = self.repo.find_method(h.cls, "collect")
+        return self.I.call_func(m, [h], {})  # type: ignore[arg-type]
+
+    def param_repr(self, p: Any) -> str:
+        if isinstance(p, bool):
+            return str(int(p))
+        if isinstance(p, int):
+            return str(p)
+        if isinstance(p, AObj):
+            n = p.cls.name
+            if n == "SsbOpParamConstant":
+                return f"const:{p.attrs.get('name')}"
+            if n == "SsbOpParamConstString":
+                return f"str:{p.attrs.get('name')}"
+            if n == "SsbOpParamFixedPoint":
+                return f"fixed:{p.attrs.get('value')}"
+            if n == "SsbOpParamLanguageString":
+                return "lang:" + ",".join(f"{k}={v}" for k, v in p.attrs.get("strings", {}).items())
+            if n == "SsbOpParamPositionMarker":
+                a = p.attrs
+                return f"pos:{a.get('name')}:{a.get('x_relative')}+{a.get('x_offset')}:{a.get('y_relative')}+{a.get('y_offset')}"
+            return f"<{n}>"
+        return repr(p)
